@@ -78,7 +78,9 @@ def case_st(draw):
                                             {"prefix": "/mirror/", "strip": False}, {"prefix": "/a/", "strip": True}])),
             "second_first": draw(st.booleans()),
             "up_reply": draw(st.sampled_from(["20", "20", "redirect-lookalike-host", "redirect-lookalike-port", "redirect-self", "redirect-other"])),
-            "via": draw(st.sampled_from(["object", "dict", "dict"])),  # LocationConfig(...) or LocationConfig.from_dict(...) as TOML loading does
+            "via": draw(st.sampled_from(["object", "dict", "dict"])),
+            # the upstream's first connection fails (junk instead of a TLS handshake); the same request is sent twice in a row
+            "first_conn_fails": draw(st.integers(0, 5)) == 0, "repeat": draw(st.integers(0, 3)) == 0,  # LocationConfig(...) or LocationConfig.from_dict(...) as TOML loading does
             "companion": draw(st.integers(0, 3)) == 0,  # a second request for the same path with another query, in flight together
             "static_after": draw(st.booleans()), "url": url, "path": path or "/", "query": query, "labels": labels}
 
@@ -144,6 +146,8 @@ def run_case(case: dict):
                  "redirect-self": f"30 {base}/elsewhere\r\n".encode(),
                  "redirect-other": b"31 gemini://third.example/x\r\n"}[case.get("up_reply", "20")]
         up = memnet.ScriptedPeer(certs.get("ec-a"), [("wait_request", 1.0), ("sleep", 1.0), ("send", reply), ("close",)])
+        if case.get("first_conn_fails"):
+            up.fail_first_n = 1
         net.add(case["up_host"], case["up_port"], up)
         tr = FakeTransport(loop)
         proto = GeminiServerProtocol(router.route, None)
@@ -157,7 +161,15 @@ def run_case(case: dict):
         await vloop.settle(10)
         await asyncio.sleep(30)
         await vloop.settle(5)
-        lines = [bytes(c.received) for c in up.conns]
+        if case.get("repeat") and not case.get("companion"):
+            # the very same request once more, after the first one is over (same handler objects)
+            tr3 = FakeTransport(loop, peername=("192.0.2.77", 40003))
+            tr3.attach(GeminiServerProtocol(router.route, None))
+            tr3.feed(case["url"].encode("utf-8") + b"\r\n")
+            await vloop.settle(10)
+            await asyncio.sleep(30)
+            await vloop.settle(5)
+        lines = [bytes(c.received) for c in up.conns if c.received or not case.get("first_conn_fails")]
         return tr.written(), [(h, p) for (h, p, _t) in loop.connection_log], lines, (tr2.written() if tr2 else None)
 
     S, conns, lines, S2 = vloop.run(scenario, horizon=1e6)
@@ -181,7 +193,15 @@ def run_case(case: dict):
     for h, p in conns:
         if (str(h).lower(), p) != (case["up_host"], case["up_port"]):
             return viol("connection-to-foreign-host", f"request {case['url']!r} made the proxy connect to {(h, p)}; upstream is {(case['up_host'], case['up_port'])}", **info)
-    if len(conns) > 1:
+    allowed = 1 + (1 if case.get("first_conn_fails") else 0)
+    if case.get("repeat") and not case.get("companion"):
+        # the second, identical request must be treated exactly like the first
+        if len(lines) == 2 and lines[0] != lines[1]:
+            return viol("url-mapped-unfaithfully", f"the same request sent twice reached the upstream as {lines[0][:80]!r} and then as {lines[1][:80]!r}", **info)
+        allowed *= 2
+        lines = lines[:1]
+        conns = conns[: max(1, len(conns) // 2)] if conns else conns
+    if len(conns) > allowed:
         return viol("more-than-one-upstream-connection", f"{conns}", **info)
     # which location is responsible (reference: first prefix that is a string prefix of the path)
     path = case["path"]
@@ -215,6 +235,8 @@ def run_case(case: dict):
         if exp_len + 2 > 1024 - 8 or S.startswith(b"43"):
             return grey("not-forwarded", **info) if exp_len + 2 > 1000 else viol("not-forwarded", f"{S[:60]!r} for {case['url']!r}", **info)
         return viol("not-forwarded", f"{S[:60]!r}", **info)
+    if case.get("first_conn_fails") and S.startswith(b"43") and not lines:
+        return ok(upstream_failed=True, **info)   # the upstream could not be reached: a 43 is the right answer (C18)
     if not lines or b"\r\n" not in lines[0]:
         return viol("upstream-received-no-request", f"{lines}", **info)
     got_line = lines[0].split(b"\r\n", 1)[0].decode("utf-8", "replace")
